@@ -12,7 +12,26 @@ def site_families():
     fams.append(('Boson[N,Nmax=2]', lambda: S.BosonSite(Nmax=2, conserve='N')))
     fams.append(('Spin1[Sz]', lambda: S.SpinSite(S=1.0, conserve='Sz', sort_charge=True)))
     fams.append(('SpinHalfFermion[N,Sz]', lambda: S.SpinHalfFermionSite(cons_N='N', cons_Sz='Sz')))
+
+    # heterogeneous chains (sites of different type and dimension next to each other)
+    def mixed_FS(L):
+        f, s = S.FermionSite('N'), S.SpinHalfSite('Sz', sort_charge=True)
+        S.set_common_charges([f, s], 'independent')
+        return [f, s] * (L // 2) + [f] * (L % 2)
+    mixed_FS.takes_L = True
+
+    def mixed_SFB(L):
+        f, s, b = S.FermionSite('parity'), S.SpinSite(1.0, 'parity', sort_charge=True), S.BosonSite(2, 'parity')
+        S.set_common_charges([s, f, b], 'independent')
+        return ([s, f, b] * L)[:L]
+    mixed_SFB.takes_L = True
+    fams.append(('mixed[Fermion(N),SpinHalf(Sz)]', mixed_FS))
+    fams.append(('mixed[Spin1,Fermion,Boson | parity]', mixed_SFB))
     return fams
+
+
+def make_sites(fam, L):
+    return fam(L) if getattr(fam, 'takes_L', False) else [fam() for _ in range(L)]
 
 
 def dense_state(psi):
@@ -52,7 +71,7 @@ def random_mps(rng, fam, L, bc='finite', chi_cut=None):
     """finite MPS from a random dense state of one charge sector (exact, via from_full)."""
     from tenpy.networks.mps import MPS
     import tenpy.linalg.np_conserved as npc
-    sites = [fam() for _ in range(L)]
+    sites = make_sites(fam, L)
     v = random_state_vector(rng, sites)
     legs = [s.leg for s in sites]
     labels = [f'p{i}' for i in range(L)]
